@@ -446,7 +446,13 @@ class Array(metaclass=MetaArray):
             shape = cls._shape
         if not cls._is_static_type:
             items = np.prod(shape)
-            self._offsets = Int64._array_from_buffer(buffer, coffset, items)
+            offsets = Int64._array_from_buffer(buffer, coffset, items)
+            if len(shape) > 1:
+                # the table is stored in memory order: view it in index space
+                order = mk_order(cls._order, shape)
+                offsets = offsets.reshape([shape[io] for io in order])
+                offsets = offsets.transpose([order.index(ii) for ii in range(len(order))])
+            self._offsets = offsets
         return self
 
     @classmethod
@@ -470,8 +476,11 @@ class Array(metaclass=MetaArray):
             )
             coffset += 8 * len(header)
         if not cls._is_static_type:
-            Int64._array_to_buffer(buffer, coffset, info.offsets)
-            coffset += 8 * len(info.offsets)
+            # item offsets are stored in the memory order of the array
+            Int64._array_to_buffer(
+                buffer, coffset, info.offsets.transpose(tuple(info.order))
+            )
+            coffset += 8 * info.offsets.size
         if hasattr(cls._itemtype, "_dtype") and hasattr(
             value, "dtype"
         ):  # is a scalar type:
